@@ -77,13 +77,17 @@ def payload_of(e):
 # ---- statefulness of the user functions is an enumerated axis too -------------------------------------------
 # 'pure'      : the functions are pure
 # 'fail-once' : a function raises only the FIRST time it meets a given offending value and succeeds afterwards
-#               (a transient failure); a retry of the same call therefore does not fail again
-# 'counter'   : the results carry the ordinal of the call (an iterator-fed / counting function), so an extra,
-#               missing or reordered call changes every later value
-# In every mode all calls of the user functions handed to petl are LOGGED.  The model is: each user function is
-# called exactly once per (row, cell) it applies to per pass, rows in order and cells left to right, and the
-# policy applies to the outcome of that one call.  The model therefore evaluates the very same functions in that
-# order inside its own private context and yields the expected call log along with the expected rows.
+#               (a transient failure); a retry of the same call therefore does not fail again.  The state is
+#               keyed by the offending value; values are unique per cell, and None (what an absent field reads
+#               as) always fails, so the outcome does not depend on the order in which cells are evaluated.
+# 'counter'   : a result carries how many times THIS function has been called with THESE arguments
+#               (a call-counting function): '...#1' on the first call, '...#2' when the call is repeated.
+#               (function, arguments) is unique per cell, so this too is independent of the evaluation order.
+# What the statement fixes is observable behaviour: the policy applies to the failure that happened.  A second
+# evaluation of a failing row shows up in the delivered rows / the raised exception under these functions.
+# The calls are also LOGGED; the log of the model (each function called once per (row, cell), rows in order,
+# cells left to right) is compared for INFORMATION only - the statement does not say how often or in which order
+# user functions are called.
 STATES = ('pure', 'fail-once', 'counter')
 
 
@@ -95,7 +99,8 @@ class Ctx(object):
         self.failed = set()
         self.log = []
         self.depth = 0
-        self.ncalls = 0
+        self.counts = {}
+        self.cur = 0
 
 
 _CTX = Ctx()
@@ -122,8 +127,9 @@ def user(fn):
     def wrapper(*args):
         ctx = _CTX
         if ctx.depth == 0:
-            ctx.ncalls += 1
-            ctx.log.append((name,) + tuple(_key(a) for a in args))
+            entry = (name,) + tuple(_key(a) for a in args)
+            ctx.log.append(entry)
+            ctx.cur = ctx.counts[entry] = ctx.counts.get(entry, 0) + 1
         ctx.depth += 1
         try:
             return fn(*args)
@@ -136,7 +142,7 @@ def user(fn):
 def _fail(v):
     """The point where a user function chokes on v."""
     ctx = _CTX
-    if ctx.state == 'fail-once':
+    if ctx.state == 'fail-once' and v is not None:
         if v in ctx.failed:
             return               # met before: this time the function goes on and succeeds
         ctx.failed.add(v)
@@ -146,7 +152,7 @@ def _fail(v):
 
 def _ret(s):
     if _CTX.state == 'counter':
-        return '%s#%d' % (s, _CTX.ncalls)
+        return '%s#%d' % (s, _CTX.cur)
     return s
 
 
@@ -578,9 +584,10 @@ def has_errorvalue(form):
 def expected(form, tbl, policy, errorvalue=OMIT, selected=None, state='pure'):
     """Expected observation of one full pass.
 
-    Returns dict(rows=[header, row, ...], raises=None|payload, optional=k, log=[...]):
+    Returns dict(rows=[header, row, ...], raises=None|[payload, ...], optional=k, log=[...]):
     `rows` are delivered in order; if `raises` is not None the exception surfaces at the next request after
-    them, where the last `optional` rows (produced by a generator for the failing input row before it failed)
+    them and is that of ANY failing cell of the row (the statement does not say which of several failing cells
+    of one row is met first), where the last `optional` rows (produced by a generator for the failing input row before it failed)
     may or may not have been delivered (any prefix of them).  `log` is the expected sequence of user-function
     calls (and of the points where they raise) of the pass."""
     ctx = Ctx(state)
@@ -614,7 +621,7 @@ def _expected(form, tbl, policy, errorvalue, selected):
             if not fails:
                 out.append(tuple(c[1] for c in cells))
             elif policy is True:
-                return {'rows': out, 'raises': fails[0][1], 'optional': 0}
+                return {'rows': out, 'raises': [c[1] for c in fails], 'optional': 0}
             elif policy == 'inline':
                 out.append(tuple((EXC, c[1]) if c[0] == 'fail' else c[1] for c in cells))
             else:
@@ -625,7 +632,7 @@ def _expected(form, tbl, policy, errorvalue, selected):
             if fail is NOFAIL:
                 out.extend(rows)
             elif policy is True:
-                return {'rows': out + rows, 'raises': fail, 'optional': len(rows)}
+                return {'rows': out + rows, 'raises': [fail], 'optional': len(rows)}
             elif policy == 'inline':
                 out.extend(rows)
                 out.append(((EXC, fail),))
@@ -635,6 +642,9 @@ def _expected(form, tbl, policy, errorvalue, selected):
 
 
 def payload_matches(expected_payload, observed_payload):
+    """expected_payload: one payload, or a list of acceptable ones."""
+    if isinstance(expected_payload, list):
+        return any(payload_matches(p, observed_payload) for p in expected_payload)
     if expected_payload == ANY:
         return True
     return expected_payload == observed_payload
